@@ -50,6 +50,16 @@ def make_arg(rng, kind, valid, quality='exact'):
     if kind == 'UU':
         if valid:
             return (rot_like(rng, quality), rot_like(rng, quality))
+        k = rng.random()
+        if k < 0.25:                       # two improper orthonormal matrices: the defects cancel in U1'.U2
+            a, b = rot_like(rng, 'exact').copy(), rot_like(rng, 'exact').copy()
+            a[0] = -a[0]
+            b[0] = -b[0]
+            return (a, b)
+        if k < 0.4:                        # a sheared matrix and its inverse transpose
+            S = np.eye(3) + np.array([[0, 0.3, 0], [0, 0, 0.2], [0, 0, 0]])
+            a = rot_like(rng, 'exact').dot(S)
+            return (a, np.linalg.inv(a).T)
         a, b = rot_like(rng, 'exact'), rot_like(rng, 'bad')
         return (a, b) if rng.random() < 0.5 else (b, a)
     if kind == 'E':
